@@ -26,9 +26,10 @@ def _tag_app(tag):
     return [["recv_until_end"], ["respond", 200, [(b"x-tag", b"%d" % tag)], b"body-%d" % tag]]
 
 
-def _h1_req(tag, extra=b"", body=b""):
+def _h1_req(tag, extra=b"", body=b"", absolute=False):
     cl = b"content-length: %d\r\n" % len(body) if body else b""
-    return b"GET /t%d HTTP/1.1\r\nHost: h.example\r\n%s%s\r\n%s" % (tag, extra, cl, body)
+    # absolute-form (RFC 7230 5.3.2) names the same resource: whichever protocol serves it, the application sees the path
+    return b"GET %s/t%d HTTP/1.1\r\nHost: h.example\r\n%s%s\r\n%s" % (b"http://h.example" if absolute else b"", tag, extra, cl, body)
 
 
 def _h2_req(fb, sid, tag, body=b""):
@@ -69,13 +70,13 @@ def gen(rng, tier):
                 truth.update(proto="h2", version="2", expect={tags[0]: 1, tags[1]: 3})
             elif kind in ("alpn_h11", "tls_noalpn", "plain", "plain_pipelined"):
                 conn = {"tls": kind in ("alpn_h11", "tls_noalpn"), "alpn": "http/1.1" if kind == "alpn_h11" else None}
-                opening = _h1_req(tags[0], body=body)
-                trailing = _h1_req(tags[1]) + (_h1_req(tags[2]) if kind == "plain_pipelined" else b"")
+                opening = _h1_req(tags[0], body=body, absolute=rng.random() < 0.15)
+                trailing = _h1_req(tags[1], absolute=rng.random() < 0.15) + (_h1_req(tags[2]) if kind == "plain_pipelined" else b"")
                 truth.update(proto="h1", version="1.1", expect=[tags[0], tags[1]] + ([tags[2]] if kind == "plain_pipelined" else []))
             elif kind in ("h2c", "h2c_settings"):
                 st = b"" if kind == "h2c" else fb.settings({3: 100, 4: 65535 + rng.randrange(1000)})[9:]
                 opening = _h1_req(tags[0], extra=b"Connection: Upgrade, HTTP2-Settings\r\nUpgrade: h2c\r\nHTTP2-Settings: %s\r\n" %
-                                  base64.urlsafe_b64encode(st).rstrip(b"="))
+                                  base64.urlsafe_b64encode(st).rstrip(b"="), absolute=rng.random() < 0.3)
                 trailing = client_preface(fb, {}) + _h2_req(fb, 3, tags[1], body)
                 reactor = {"kind": "h2", "credit": "auto", "skip_h1_101": True}
                 truth.update(proto="h2c", version="2", expect={tags[0]: 1, tags[1]: 3})
